@@ -109,15 +109,20 @@ def random_instance(rng, P, mode, kinds, maxM=3, maxn=2, h1=True):
         QI = low(mat(M, M))
         w = QI[M - 1] if rng.random() < 0.4 else [z() for _ in range(M)]
         return dict(kind='rk', M=M, n=n, dt=rng.choice([1, 2, 3][:P - 2] if P > 3 else [1, 2]), rightnode=True, collupdate=False, A=A_,
-                    B=zero(n, n), c=0, Q=[list(r) for r in QI], QI=QI, QE=zero(M, M), w=list(w), u0=[z() for _ in range(n)], U=mat(M, n), tau=[])
+                    B=zero(n, n), c=0, Q=[list(r) for r in QI], QI=QI, QE=zero(M, M), w=list(w), u0=[z() for _ in range(n)], U=mat(M, n), tau=[],
+                    tn=[0] * M, g=[0] * n)
     if kind == 'multi':
         return dict(kind='multi', M=M, n=n, dt=rng.choice([1, 2, 3][:P - 2] if P > 3 else [1, 2]), rightnode=rc in ('TF', 'TT'), collupdate=rc in ('TT', 'FT'),
                     A=mat(n, n), B=mat(n, n), c=0, Q=mat(M, M), QI=low(mat(M, M)), QE=low(mat(M, M)), w=[z() for _ in range(M)],
-                    u0=[z() for _ in range(n)], U=mat(M, n), tau=rng.choice([[], mat(M, n)]))
+                    u0=[z() for _ in range(n)], U=mat(M, n), tau=rng.choice([[], mat(M, n)]), tn=[0] * M, g=[0] * n)
     inst = dict(kind=kind, M=M, n=n, dt=rng.choice([1, 2, 3][:P - 2] if P > 3 else [1, 2]), rightnode=rc in ('TF', 'TT'), collupdate=rc in ('TT', 'FT'),
                 A=A, B=zero(n, n) if kind == 'impl' else mat(n, n), c=0 if kind == 'impl' else z(),
                 Q=mat(M, M), QI=zero(M, M) if kind == 'expl' else low(mat(M, M)), QE=zero(M, M) if kind == 'impl' else slow(mat(M, M)),
                 w=[z() for _ in range(M)], u0=[z() for _ in range(n)], U=mat(M, n), tau=rng.choice([[], mat(M, n)]))
+    timedep = kind in ('imex', 'expl') and rng.random() < 0.6
+    inst['tn'] = [z() for _ in range(M)] if timedep else [0] * M
+    inst['g'] = [z() for _ in range(n)] if timedep else [0] * n
+    inst['leftnode'] = rng.random() < 0.3
     if mode == 'sweep' and kind == 'impl' and rng.random() < 0.3:
         # k-dependent preconditioner: the sweeper refreshes QI for sweep index k; the model uses the k-th matrix
         inst['QIK'] = [low(mat(M, M)) for _ in range(3)]
@@ -131,7 +136,9 @@ def random_instance(rng, P, mode, kinds, maxM=3, maxn=2, h1=True):
                 row[-1] = (1 - sum(row[:-1])) % P
         inst['G'] = dict(kind=kind, M=Mc, n=nc, dt=inst['dt'], rightnode=True, collupdate=False, A=mat(nc, nc), B=zero(nc, nc), c=0,
                          Q=mat(Mc, Mc), QI=zero(Mc, Mc) if kind == 'expl' else low(mat(Mc, Mc)),
-                         QE=zero(Mc, Mc) if kind == 'impl' else slow(mat(Mc, Mc)), w=[0] * Mc)
+                         QE=zero(Mc, Mc) if kind == 'impl' else slow(mat(Mc, Mc)), w=[0] * Mc,
+                         tn=[z() for _ in range(Mc)] if timedep else [0] * Mc, g=[z() for _ in range(nc)] if timedep else [0] * nc,
+                         leftnode=rng.random() < 0.4)
         if kind != 'impl':
             inst['G']['B'] = mat(nc, nc)
             inst['G']['c'] = z()
@@ -146,14 +153,15 @@ def make_fixed_point(inst, P, rng):
     if P ** (M * n) > 4000:
         return False
 
-    def f(u):
+    def f(u, m):
         A, B, c = inst['A'], inst['B'], inst['c']
-        return [(sum(A[i][j] * u[j] for j in range(n)) + sum(B[i][j] * u[j] for j in range(n)) + c * u[i] * u[i]) % P for i in range(n)]
+        tn, g = inst.get('tn') or [0] * M, inst.get('g') or [0] * n
+        return [(sum(A[i][j] * u[j] for j in range(n)) + sum(B[i][j] * u[j] for j in range(n)) + c * u[i] * u[i] + tn[m] * g[i]) % P for i in range(n)]
 
     sols = []
     for flat in itertools.product(range(P), repeat=M * n):
         U = [list(flat[m * n:(m + 1) * n]) for m in range(M)]
-        F = [f(u) for u in U]
+        F = [f(u, m) for m, u in enumerate(U)]
         ok = True
         for m in range(M):
             for i in range(n):
